@@ -581,6 +581,10 @@ def calc_blockdep(
         # The calculation below compares blocks of the two feature maps by coordinate, which is only valid if they
         # address the memory in the same way (not the case for e.g. the transposed OFM of a Transpose operation)
         return 0
+    if overlapping_fm.tiles.width_0 < overlapping_fm.shape.width:
+        # ...nor when the IFM is split in width: RESIZE_BILINEAR with half pixel centers replicates the first column
+        # (and row) through the tile registers, so its elements are shifted against the coordinates of the OFM
+        return 0
 
     cur_ifm_block_depth = get_ifm_ofm_block_depth(arch, npu_op)
     cur_ofm_block = Block(block_config.width, block_config.height, block_config.depth)
